@@ -198,7 +198,7 @@ def run(pid, tier, seed, args, t0):
         for v, f in mine:
             case = cs.get(v["idx"], {})
             ce = [e for e in evs.get(v["idx"], []) if e.get("variant", v.get("variant")) == v.get("variant") or e.get("ev") in ("Render", "Lit")]
-            sig = signatures.signature(pid, f["w"], src, case, ce)
+            sig = signatures.signature(pid, f["w"], src, case, ce, f.get("i", 0))
             rec = {"property": pid, "what": f["w"], "source": src, "signature": sig, "case": case, "events": ce}
             if (pid, sig) in known_sigs:
                 seen_known.setdefault(sig, rec)
